@@ -154,7 +154,10 @@ class C17(Prop):
                         return x if (scaled and 0 <= x <= hi and x != r and rng.random() < 0.6) else (r + 1) % (hi + 1)
                     cases.append({"kind": "%s:%s" % (name, "scaled" if scaled else "plain"), "tbl": tbl, "idx": idx, "raw": raw,
                                   "lo": rng.choice([0, raw]), "hi": rng.choice([hi, raw]), "other": held_for(raw),
-                                  "acc": [w, blo, bhi, held_for(w)], "via_device": rng.random() < 0.5,
+                                  # (the controller may report a value outside the bounds it reports with it: writing back what is
+                                  #  displayed for it is refused like any other out-of-range value)
+                                  "acc": [w, blo, bhi, w if not (blo <= w <= bhi) and rng.random() < 0.4 else held_for(w)],
+                                  "via_device": rng.random() < 0.5,
                                   # half of the parameter objects have a history: an earlier report with the same value and other bounds
                                   "prior": None if tbl == 5 or rng.random() < 0.5 else sorted([rng.choice(marks), rng.choice(marks)])})
         # two parameters reported with identical bytes: writing one must not change what the other displays (nor what either
